@@ -3,7 +3,7 @@ C05 — every TRXC command gets exactly one well-formed response with documented
 Property theorems only (toolkit side; trxcon's response parser is in Props/Trxcon).
 World model: `OsmoVerif.World` (Model/World.lean), command semantics: `OsmoVerif.Spec.Trxc`.
 -/
-import OsmoVerif.Lemmas.WorldCmd
+import OsmoVerif.Lemmas.WorldText
 
 namespace OsmoVerif.Props.C05
 open OsmoVerif OsmoVerif.World OsmoVerif.PyStr
@@ -320,5 +320,70 @@ theorem cmd_meets_spec (w : World) (i : Nat) (t : Trx) (ht : w.trxs[i]? = some t
         .ok (w', ((Spec.Trxc.semantics (viewOf t) V vals).status, res)) ∧
       Realises w i t (Spec.Trxc.semantics (viewOf t) V vals).effect w' res :=
   parseCmd_meets_spec ht V args vals ha
+
+/-! ### reply form (what trxcon's response parser is given)
+
+`cmdText V args` is the datagram `CMD <V> <arg> … <arg>\0`, `rspTextOf V status args results` the
+datagram `RSP <V> <status> <arg> … <arg>[ <result>]\0` (octets = ASCII code points); a `Token` is a
+non-empty word of printable ASCII characters other than the space. -/
+
+/-- Any well-formed command text that fits the receive buffer is answered, octet for octet, by
+`RSP <VERB> <status> <same arguments>[ <result>]\0`: status an optionally signed decimal
+(`intToStr`), a result (one decimal number) only for MEASURE and NOMTXPOWER. -/
+theorem reply_form (w : World) (i a p : Nat) (t : Trx) (ht : w.trxs[i]? = some t)
+    (V : Str) (args : List Str) (h : ∀ x ∈ V :: args, Token x)
+    (hlen : (cmdText V args).length ≤ Gen.World.ctrlRecvSize) :
+    ∃ status results w',
+      handleRx w i a p (cmdText V args) =
+        { world := w', out := [⟨t.ctrlPort, a, p, rspTextOf V status args results⟩] } ∧
+      (results = [] ∨
+        ((V = lit "MEASURE" ∨ V = lit "NOMTXPOWER") ∧ ∃ v, results = [intToStr v])) ∧
+      (parseCmd w i (V :: args) = .ok (w', (status, results)) ∨
+       (parseCmd w i (V :: args) = .error .valueError ∧ status = -1 ∧ results = [] ∧ w' = w)) :=
+  handleRx_cmdText a p ht V args h hlen
+
+/-- For each command text trxcon emits (`CMD ECHO`, `CMD POWEROFF`, `CMD POWERON`, `CMD RXTUNE <u>`,
+`CMD TXTUNE <u>`, `CMD MEASURE <u>`, `CMD SETSLOT <u> <u>`, `CMD SETTA <d>`,
+`CMD SETFH <u> <u> <u> <u> …`; NUL-terminated, decimal arguments) the reply is
+`RSP <VERB> <status> <same arguments>[ <dbm>]\0` with a decimal result only for MEASURE —
+the premise of `trxcon_accepts_rsp` (Props/Trxcon). -/
+theorem reply_form_for_trxcon (w : World) (i a p : Nat) (t : Trx) (ht : w.trxs[i]? = some t)
+    (c : TrxconCmd) (hlen : c.text.length ≤ Gen.World.ctrlRecvSize) :
+    ∃ (status : Int) (results : List Str) (w' : World),
+      handleRx w i a p c.text =
+        { world := w', out := [⟨t.ctrlPort, a, p, rspTextOf c.verb status c.args results⟩] } ∧
+      (results = [] ∨ (c.verb = lit "MEASURE" ∧ ∃ dbm, results = [intToStr dbm])) := by
+  obtain ⟨status, results, w', h1, h2, _⟩ := handleRx_cmdText a p ht c.verb c.args c.tokens hlen
+  refine ⟨status, results, w', h1, ?_⟩
+  rcases h2 with h2 | ⟨hv | hv, hr⟩
+  · exact .inl h2
+  · exact .inr ⟨hv, hr⟩
+  · exact absurd hv c.verb_ne_nomtxpower
+
+/-- General length of a command text: 5 octets ("CMD ", NUL) + verb + one separator per argument -/
+theorem cmd_text_length (V : Str) (args : List Str) :
+    (cmdText V args).length = 5 + V.length + (args.map (·.length + 1)).sum :=
+  cmdText_length V args
+
+/-- SETFH is not truncated by `recvfrom(1024)`: a SETFH text as trxcon composes it — HSN, MAIO
+`uint8_t`, `n` pairs of frequencies of at most `k` digits that fit its `ma_buf[1000]`
+(`2·n·(k+1) ≤ 999`; e.g. 64 pairs of 6-digit or 62 pairs of 7-digit kHz values) — is at most
+1017 octets ≤ `ctrlRecvSize`, so `take ctrlRecvSize` is the identity on it.  (A 64-pair text of
+7-digit frequencies would be 1040 octets, but trxcon cannot emit it: `trx_if_cmd_setfh` returns
+−ENOSPC.)  This is the theorem that fails if `recvfrom(128)` comes back. -/
+theorem setfh_not_truncated (hsn maio : Nat) (pairs : List (Nat × Nat)) (k : Nat) (hk : 0 < k)
+    (hh : hsn < 256) (hm : maio < 256) (hf : ∀ p ∈ pairs, p.1 < 10 ^ k ∧ p.2 < 10 ^ k)
+    (hfit : 2 * pairs.length * (k + 1) ≤ 999) :
+    (TrxconCmd.setfh hsn maio pairs).text.length ≤ 1017 ∧
+    1017 ≤ Gen.World.ctrlRecvSize ∧
+    (TrxconCmd.setfh hsn maio pairs).text.take Gen.World.ctrlRecvSize =
+      (TrxconCmd.setfh hsn maio pairs).text := by
+  have h1 := trxcon_setfh_length hsn maio pairs k hk (by omega) (by omega) hf hfit
+  have h2 : 1017 ≤ Gen.World.ctrlRecvSize := by decide
+  exact ⟨h1, h2, List.take_of_length_le (by omega)⟩
+
+/-- the two extreme mobile allocations trxcon can encode -/
+theorem setfh_max_fits :
+    2 * 64 * (6 + 1) ≤ 999 ∧ 2 * 62 * (7 + 1) ≤ 999 ∧ ¬ (2 * 63 * (7 + 1) ≤ 999) := by decide
 
 end OsmoVerif.Props.C05
